@@ -47,6 +47,9 @@ CLASS_SEEDS = [
     "d = 1\nb = 1\nx = 0\nwhile true:\n    d = DiscreteUniform(1, 6)\n    b = DiscreteUniform(1, 6)\n    if d + b == 7:\n        x = x + 1\n    end\nend\n",
     "d = 1\nb = 1\nx = 0\nwhile true:\n    b = d\n    d = DiscreteUniform(1, 6)\n    if d + b == 7:\n        x = x + 1\n    end\nend\n",
     "d = 0\nb = 0\nx = 0\nwhile true:\n    d = DiscreteUniform(0, 5)\n    b = DiscreteUniform(0, 5)\n    if d == b:\n        x = x + 1\n    elif d > b:\n        x = x - 1\n    end\nend\n",
+    # a toggling finite variable next to an accumulator (eigenvalue -1 in an acyclic system: summands like k*(-1)**k)
+    "c = 1\nx = Bernoulli(1/4)\nwhile true:\n    if c == 1:\n        c = 0\n    else:\n        c = 1\n        x = x + 1\n    end\nend\n",
+    "c = 0\nx = 0\ny = 0\nwhile true:\n    c = 1 - c\n    x = x + c\n    y = y + x\nend\n",
     # || / ! / elif chains
     "c = 0\nx = 0\ny = 0\nwhile true:\n    c = DiscreteUniform(0, 3)\n    if c == 0 || c == 3:\n        x = x + 1\n    elif !(c == 1):\n        y = y + 1\n    elif c >= 1:\n        y = y - 1\n    else:\n        x = 0\n    end\nend\n",
     # guard over two finite variables, location-scale draws
